@@ -15,6 +15,10 @@
      Simplify / Exchange / Replace / DeMorgan      rewrites of a copy of the base tree
      Fixture  stored logic of a bundled geometry evaluated by the real LogicEvaluator
      ExhEnd   end of the enumeration: nothing may be left to do
+     Fam / Case / FamEnd   directed family for transform_negated_joins (Csg.tla DMFamily, replayed
+              from the ndjson TLC generated): Case = one symbolic case built on the real tree;
+              followed by Enc and one DeMorgan per volume set.  Completeness: the raw indices
+              owned by this shard must appear in order without gaps
    In exhaustive mode the spec also checks COMPLETENESS: the set `need` of rewrites/encodings
    that must be logged for each block, and the stack `todo` of trees still to be visited.  *)
 EXTENDS Csg, Json, IOUtils
@@ -22,14 +26,15 @@ EXTENDS Csg, Json, IOUtils
 TraceLog == ndJsonDeserialize(IOEnv.TRACE)
 
 VARIABLES l,      \* next record
-          exh,    \* exhaustive header (or [depth |-> -1] outside exhaustive mode)
-          base,   \* [ns, tree, prog, block]: tree the rewrites apply to
+          exh,    \* exhaustive header (depth >= 0), directed-family header (depth = -2), else [depth |-> -1]
+          base,   \* [ns, tree, prog, block, fam, volsets]: tree the rewrites apply to (block: the
+                  \* obligations `need` are enforced; fam: a case of the directed family)
           cur,    \* [ns, tree]: tree the encodings apply to (base or derived)
                   \* (truth tables are recomputed per record, never kept in the state)
           lastrep,\* result tree of the preceding successful Replace (<<>> if none)
           todo,   \* DFS stack of [prog, tree] still to be visited
           need,   \* obligations still to be logged for the current block
-          li,     \* number of depth-`split` blocks seen so far
+          li,     \* exhaustive: depth-`split` blocks seen so far; family: next raw index to account for
           cnt     \* counters
 tvars == <<l, exh, base, cur, lastrep, todo, need, li, cnt>>
 
@@ -38,7 +43,7 @@ Rec == TraceLog[l]
 Chk(cond, what) == IF cond THEN TRUE ELSE PrintT(<<"FAIL", what>>) /\ FALSE
 Bump(f, n) == cnt' = [cnt EXCEPT ![f] = @ + n]
 Bump2(f, n, g, m) == cnt' = [cnt EXCEPT ![f] = @ + n, ![g] = @ + m]
-NoTree == [ns |-> 0, tree |-> <<>>, prog |-> <<>>, block |-> FALSE]
+NoTree == [ns |-> 0, tree |-> <<>>, prog |-> <<>>, block |-> FALSE, fam |-> FALSE, volsets |-> <<>>]
 InExh == base.block
 Discharge(ob) == IF InExh THEN Chk(ob \in need, <<"unexpected or repeated", ob>>) /\ need' = need \ {ob}
                  ELSE need' = need
@@ -67,7 +72,7 @@ TTreeBlock ==
   /\ Rec.depth = Len(Rec.prog) /\ Rec.ns = exh.ns
   /\ IF IsSplit(Rec.depth) THEN li % exh.nshards = exh.shard /\ li' = li + 1 ELSE li' = li
   /\ WFTree(Rec.tree) /\ Dedup(Rec.tree)
-  /\ base' = [ns |-> Rec.ns, tree |-> Rec.tree, prog |-> Rec.prog, block |-> TRUE]
+  /\ base' = [ns |-> Rec.ns, tree |-> Rec.tree, prog |-> Rec.prog, block |-> TRUE, fam |-> FALSE, volsets |-> <<>>]
   /\ cur' = [ns |-> Rec.ns, tree |-> Rec.tree]
   /\ todo' = Tail(todo)
   /\ need' = BlockObligations(Len(Rec.tree))
@@ -135,11 +140,65 @@ TBuild ==
      /\ res.ok /\ res.size = Len(final)
      /\ WFTree(final) /\ Dedup(final)
      /\ \A i \in DOMAIN Rec.vols : Rec.vols[i] >= 0 /\ Rec.vols[i] < Len(final)
-     /\ base' = [ns |-> ns, tree |-> final, prog |-> <<>>, block |-> FALSE]
+     /\ base' = [ns |-> ns, tree |-> final, prog |-> <<>>, block |-> FALSE, fam |-> FALSE, volsets |-> <<>>]
      /\ cur' = [ns |-> ns, tree |-> final]
      /\ Bump2("programs", 1, "obl", Len(Rec.ops))
   /\ lastrep' = <<>>
   /\ UNCHANGED <<exh, todo, need, li>>
+
+\* ------------------------------------------------------------ directed family
+\* raw indices in lo .. hi - 1 that this shard would have to log
+FamOwed(lo, hi) == {r \in lo .. (hi - 1) : r % exh.nshards = exh.shard /\ FamIsCase(exh.level, r)}
+TFam ==
+  /\ Rec.e = "Fam" /\ exh.depth = -1 /\ need = {}
+  /\ Rec.level \in {1, 2} /\ Rec.nshards >= 1 /\ Rec.shard >= 0 /\ Rec.shard < Rec.nshards
+  /\ exh' = [depth |-> -2, level |-> Rec.level, nshards |-> Rec.nshards, shard |-> Rec.shard]
+  /\ li' = 0
+  /\ UNCHANGED <<base, cur, lastrep, todo, need, cnt>>
+
+TCase ==
+  /\ Rec.e = "Case" /\ exh.depth = -2
+  /\ Chk(need = {}, <<"case left obligations", need>>)
+  \* completeness: this is the next raw index owned by the shard, and it is a member
+  /\ Chk(Rec.ri >= li /\ Rec.ri < FamTotal(exh.level) /\ FamOwed(li, Rec.ri) = {}
+         /\ Rec.ri % exh.nshards = exh.shard /\ FamIsCase(exh.level, Rec.ri), <<"family case out of order", li, Rec.ri>>)
+  /\ li' = Rec.ri + 1
+  /\ LET c == FamCaseAt(exh.level, Rec.ri)
+         ns == Rec.ns
+         final == Rec.tree
+         ttf == TT(ns, final)
+         ids == [j \in DOMAIN Rec.ops |-> Rec.ops[j].id]
+         res == FoldLeft(LAMBDA acc, r :
+                  IF ~acc.ok THEN acc
+                  ELSE LET t == SubSeq(final, 1, acc.size) IN
+                       [ok |-> /\ Chk(InsOK(ns, t, SubSeq(ttf, 1, acc.size), r), <<"insert", acc.size, r>>)
+                               /\ r.size <= Len(final)
+                               /\ (r.size = acc.size + 1 => final[r.size] = r.last),
+                        size |-> r.size],
+                  [ok |-> TRUE, size |-> 2], Rec.ops)
+     IN
+     /\ ns = FamNS /\ FamCaseWF(c)
+     /\ Chk(Rec.sym.ops = c.ops /\ Rec.sym.volsets = c.volsets, <<"not the case of the family", Rec.ri>>)
+     \* the requests really are the symbolic ops with handles replaced by the returned ids
+     /\ Len(Rec.ops) = Len(c.ops)
+     /\ \A j \in DOMAIN c.ops : Chk(Rec.ops[j].op = FamRequest(c.ops[j], ids), <<"request differs from the case", j>>)
+     /\ Rec.volsets = [v \in DOMAIN c.volsets |-> [i \in DOMAIN c.volsets[v] |-> ids[c.volsets[v][i]]]]
+     /\ SubSeq(final, 1, 2) = EmptyTree
+     /\ res.ok /\ res.size = Len(final)
+     /\ WFTree(final) /\ Dedup(final)
+     /\ base' = [ns |-> ns, tree |-> final, prog |-> <<>>, block |-> TRUE, fam |-> TRUE, volsets |-> Rec.volsets]
+     /\ cur' = [ns |-> ns, tree |-> final]
+     /\ need' = {<<"Enc">>} \cup {<<"FamDM", v>> : v \in DOMAIN c.volsets}
+     /\ cnt' = [cnt EXCEPT !.programs = @ + 1, !.obl = @ + Len(Rec.ops), !.famcases = @ + 1]
+  /\ lastrep' = <<>>
+  /\ UNCHANGED <<exh, todo>>
+
+TFamEnd ==
+  /\ Rec.e = "FamEnd" /\ exh.depth = -2
+  /\ Chk(need = {} /\ FamOwed(li, FamTotal(exh.level)) = {}, <<"family incomplete", need, li>>)
+  /\ Chk(Rec.cases = cnt.famcases, <<"case count", Rec.cases, cnt.famcases>>)
+  /\ exh' = [depth |-> -1] /\ base' = NoTree
+  /\ UNCHANGED <<cur, lastrep, todo, need, li, cnt>>
 
 \* ------------------------------------------------------------------ encodings
 \* (the harness logs evaluator outputs over all assignments packed like the spec's tables)
@@ -158,7 +217,9 @@ TEnc ==
   /\ Rec.e = "Enc" /\ cur.tree # <<>>
   /\ Discharge(IF cur.tree = base.tree /\ ~(<<"DEnc">> \in need) THEN <<"Enc">> ELSE <<"DEnc">>)
   /\ InExh => /\ Rec.toolong = 0
-              /\ ToSet([i \in DOMAIN Rec.nodes |-> Rec.nodes[i].n]) = 0 .. (Len(cur.tree) - 1)
+              /\ LET logged == ToSet([i \in DOMAIN Rec.nodes |-> Rec.nodes[i].n]) IN
+                 IF base.fam THEN \A v \in DOMAIN base.volsets : ToSet(base.volsets[v]) \subseteq logged
+                 ELSE logged = 0 .. (Len(cur.tree) - 1)
   /\ LET ctt == TT(cur.ns, cur.tree) IN
      \A i \in DOMAIN Rec.nodes :
         /\ Rec.nodes[i].n >= 0 /\ Rec.nodes[i].n < Len(cur.tree)
@@ -238,6 +299,7 @@ TDeMorgan ==
          all == [i \in 1 .. Len(cur.tree) |-> i - 1]
          tt2 == TT(cur.ns, Rec.after) IN
      /\ IF ~InExh THEN need' = need
+        ELSE IF base.fam THEN \E v \in DOMAIN base.volsets : base.volsets[v] = Rec.vols /\ Discharge(<<"FamDM", v>>)
         ELSE IF ~onbase THEN Rec.vols = all /\ Discharge(<<"DDeM">>)
         ELSE IF Rec.vols = all THEN Discharge(<<"DeMorgan", 0>>)
         ELSE Len(Rec.vols) = 1 /\ Rec.vols[1] >= 2 /\ Discharge(<<"DeMorgan", Rec.vols[1]>>)
@@ -245,7 +307,13 @@ TDeMorgan ==
      /\ Chk(DeMorganOK(cur.ns, TT(cur.ns, cur.tree), Rec.vols, Rec.after, Rec.avols), <<"transform_negated_joins", cur.tree>>)
      /\ Len(Rec.inf) + Rec.toolong = Len(Rec.avols) /\ (InExh => Rec.toolong = 0)
      /\ \A i \in DOMAIN Rec.inf : InfOK(cur.ns, tt2, Rec.avols, Rec.inf[i])
-     /\ cnt' = [cnt EXCEPT !.rewrites = @ + 1, !.obl = @ + 3 * Len(Rec.vols),
+     \* postfix logic / LogicEvaluator / flag of the transformed volumes (family mode logs them)
+     /\ base.fam => Len(Rec.enc) = Len(Rec.avols)
+     /\ \A i \in DOMAIN Rec.enc :
+           /\ \E j \in DOMAIN Rec.avols : Rec.avols[j] = Rec.enc[i].n
+           /\ EncOK(cur.ns, tt2, Rec.enc[i])
+     /\ cnt' = [cnt EXCEPT !.rewrites = @ + 1, !.obl = @ + 3 * Len(Rec.vols) + 4 * Len(Rec.enc),
+                           !.encodings = @ + Len(Rec.enc),
                            !.infixeval = @ + Cardinality({i \in DOMAIN Rec.inf : ~Rec.inf[i].skip})]
   /\ UNCHANGED <<exh, base, cur, lastrep, todo, li>>
 
@@ -268,14 +336,14 @@ TFixture ==
 
 \* ----------------------------------------------------------------------------
 Counters == [programs |-> 0, blocks |-> 0, skipped |-> 0, inserts |-> 0, obl |-> 0, encodings |-> 0,
-             simple |-> 0, rewrites |-> 0, contradictions |-> 0, infixeval |-> 0, fixtures |-> 0]
+             simple |-> 0, rewrites |-> 0, contradictions |-> 0, infixeval |-> 0, fixtures |-> 0, famcases |-> 0]
 TInit == /\ l = 1 /\ exh = [depth |-> -1] /\ base = NoTree /\ cur = [ns |-> 0, tree |-> <<>>]
          /\ lastrep = <<>> /\ todo = <<>> /\ need = {} /\ li = 0 /\ cnt = Counters
 TNext ==
   /\ l <= Len(TraceLog)
   /\ l' = l + 1
   /\ \/ TExh \/ TTreeBlock \/ TSkip \/ TInserts \/ TExhEnd \/ TBuild \/ TEnc \/ TSimplify \/ TExchange
-     \/ TReplace \/ TTreeDerived \/ TDeMorgan \/ TFixture
+     \/ TReplace \/ TTreeDerived \/ TDeMorgan \/ TFixture \/ TFam \/ TCase \/ TFamEnd
 TSpec == TInit /\ [][TNext]_tvars
 
 Accepted ==
@@ -289,5 +357,6 @@ Report == (l = Len(TraceLog) + 1) =>
    /\ PrintT(<<"SUMMARY", "programs", cnt.programs, "obligations", cnt.obl, "blocks", cnt.blocks,
                "inserts", cnt.inserts, "encodings", cnt.encodings, "simple", cnt.simple,
                "rewrites", cnt.rewrites, "contradictions", cnt.contradictions,
-               "infixeval", cnt.infixeval, "fixtures", cnt.fixtures, "skipped", cnt.skipped>>)
+               "infixeval", cnt.infixeval, "fixtures", cnt.fixtures, "skipped", cnt.skipped,
+               "famcases", cnt.famcases>>)
 =============================================================================
